@@ -13,6 +13,7 @@
 using namespace vh;
 
 static const char* g_rm = "RN";
+static int g_x87rc = -1;          // >= 0: the x87 rounding control was deliberately left different from MXCSR (family fsplit)
 
 template<class V>
 struct FDrv {
@@ -139,6 +140,7 @@ struct FDrv {
             for (unsigned j = 0; j < N; ++j) {
                 Fact x(op, 'f');
                 if (moded) x.mode(g_rm);
+                if (g_x87rc >= 0) x.num("x87", g_x87rc);
                 emit(x.val("a", a[j]).val("r", sg ? S(0) : r[j]).signal(sg), tn, int(j), form);
             }
         });
@@ -201,6 +203,11 @@ struct FDrv {
         un("round", "op", true, [](V a) { return avel::round(a); });
         un("nearbyint", "op", true, [](V a) { return avel::nearbyint(a); });
         un("rint", "op", true, [](V a) { return avel::rint(a); });
+    }
+    // nearbyint / rint with the two rounding controls out of step (main sets them): MXCSR is the current mode
+    void fsplit() {
+        un("nearbyint", "split", true, [](V a) { return avel::nearbyint(a); });
+        un("rint", "split", true, [](V a) { return avel::rint(a); });
     }
     // ----------------------------------------------------------------- C12
     void fmanip() {
@@ -580,6 +587,7 @@ struct FSDrv {
             int sg = guarded([&] { r = f(ao); });
             Fact x(op, 'f');
             if (moded) x.mode(g_rm);
+            if (g_x87rc >= 0) x.num("x87", g_x87rc);
             emit(x.val("a", a).val("r", sg ? S(0) : r).signal(sg), tn, 0, "scalar");
         }
     }
@@ -625,6 +633,10 @@ struct FSDrv {
         un("floor", true, [](S a) { return avel::floor(a); });
         un("trunc", true, [](S a) { return avel::trunc(a); });
         un("round", true, [](S a) { return avel::round(a); });
+        un("nearbyint", true, [](S a) { return avel::nearbyint(a); });
+        un("rint", true, [](S a) { return avel::rint(a); });
+    }
+    void fsplit() {
         un("nearbyint", true, [](S a) { return avel::nearbyint(a); });
         un("rint", true, [](S a) { return avel::rint(a); });
     }
@@ -734,6 +746,7 @@ struct FSDrv {
 
 template<class D>
 static void dispatch(D& d, const std::string& family) {
+    if (family == "fsplit") { d.fsplit(); return; }
     if (family == "farith") d.farith();
     else if (family == "fround") d.fround();
     else if (family == "fmanip") d.fmanip();
@@ -755,9 +768,20 @@ int main(int argc, char** argv) {
     if (!open_sink(argv[4])) return 2;
     install_handlers();
     const bool moded = family == "farith" || family == "fround" || family == "fmanip" || family == "fsweep" || family == "fenv";
-    for (unsigned rc = 0; rc < (moded ? 4u : 1u); ++rc) {
+    // fsplit: fesetround-like setting of both units to x, then MXCSR alone to rc (what _MM_SET_ROUNDING_MODE or a
+    // restored MXCSR leave behind); quick: one derangement of the four modes, thorough: all twelve unequal pairs
+    const unsigned nsplit = g_tier ? 12u : 4u;
+    for (unsigned it = 0; it < (family == "fsplit" ? nsplit : moded ? 4u : 1u); ++it) {
+        unsigned rc = it;
         if (family == "fsweep" && rc >= 2) break;     // the exhaustive sweep runs under round-to-nearest and round-down
-        set_rounding(rc);
+        if (family == "fsplit") {
+            const unsigned x = g_tier ? it / 3 : it;
+            rc = g_tier ? (x + 1 + it % 3) % 4 : (it + 1) % 4;
+            set_rounding(x);
+            _mm_setcsr((_mm_getcsr() & ~0x6000u) | (rc << 13));
+            g_x87rc = int(x);
+        } else
+            set_rounding(rc);
         g_rm = rc_name(rc);
 #define RUN_F(X)                                   \
     if (!(family == "fsweep" && VH_HAS_SIMD && std::strcmp(#X, "1x32f") == 0)) \
